@@ -51,7 +51,7 @@ func loadOwnership(path string) (*ownership, error) {
 			return nil, fmt.Errorf("%s:%d: cannot parse %q", path, ln, parts[0])
 		}
 		switch a.kind {
-		case "called-once", "goroutine-confined", "part-of", "private-field", "callback-on", "setup-setter", "virtual-lock", "option-suffix":
+		case "called-once", "goroutine-confined", "part-of", "private-field", "callback-on", "setup-setter", "virtual-lock", "option-suffix", "supplier", "pending-fix":
 		default:
 			return nil, fmt.Errorf("%s:%d: unknown annotation kind %q", path, ln, a.kind)
 		}
